@@ -119,6 +119,10 @@ func generateEtagFromInts(ns ...int64) string {
 }
 
 func (b FileBucket) NewRangeReaderEtag(_ context.Context, key string, offset, length int64, etag string) (io.ReadCloser, string, int, error) {
+	if !filepath.IsLocal(key) {
+		// keys containing ".." segments (or absolute keys) would escape the bucket directory
+		return nil, "", 404, fmt.Errorf("Not found %s", key)
+	}
 	name := filepath.Join(b.path, key)
 	file, err := os.Open(name)
 	defer file.Close()
